@@ -443,7 +443,8 @@ func (w *W) opMint(op string, qi int, variant string) error {
 		q.Successes++
 		q.Issued += sum
 		w.recordSigs(op, outs, sigs)
-	} else if honest && paid && q.Successes == 0 && !alreadySigned && sigOK {
+	} else if honest && paid && q.Successes == 0 && !alreadySigned && sigOK && amt < 1<<60 {
+		// (amounts from 2^60 on have binary digits for which no key exists: the plain binary split is not an honest request)
 		// (a second payment of an already issued quote is the payer's loss; the statement does not demand a second issuance)
 		w.viol("C06,C03", "honest-mint-refused", "MintTokens(q%d,%s) refused (%v) although the quote is paid and not issued", qi, variant, err)
 	}
@@ -645,7 +646,8 @@ func (w *W) opMeltQuote(op string, amount uint64, qi int, partial bool) error {
 		w.viol("C16", "melt-quote-over-limit-accepted", "RequestMeltQuote(%d) accepted, melt max %d", amount, lim)
 	}
 	if err != nil {
-		if !(lim > 0 && amount > lim) && !exists && !(partial && !w.Cfg.MPP) && !(partial && qi >= 0) {
+		// (an amount that BOLT11 cannot express in msat is refused as an invalid invoice, whatever the limits say)
+		if !(lim > 0 && amount > lim) && !exists && !(partial && !w.Cfg.MPP) && !(partial && qi >= 0) && amount < 1<<50 {
 			w.viol("C16", "melt-quote-within-limit-refused", "RequestMeltQuote(%d) refused: %v (melt max %d)", amount, err, lim)
 		}
 		return nil
